@@ -18,7 +18,7 @@ fn ints(v: &Value) -> Vec<i64> {
 fn build_format1(c: &Value, patch_format: u8, truncate_entry_map: usize, wide: bool) -> Vec<u8> {
     let first = c["first"].as_u64().unwrap() as u16;
     let gmap = ints(&c["gmap"]);
-    let (max_g, max_e) = (c["maxG"].as_u64().unwrap() as u16, if wide { 300 } else { c["maxE"].as_u64().unwrap() as u16 });
+    let (max_g, max_e) = (c["maxG"].as_u64().unwrap() as u16, if wide { (c["maxE"].as_u64().unwrap() as u16).max(300) } else { c["maxE"].as_u64().unwrap() as u16 });
     // entry indices are one byte wide unless the table declares more than 255 entries
     let put = |t: &mut Vec<u8>, v: u64| {
         if wide {
@@ -193,6 +193,26 @@ pub fn replay(path: &str, every: u64, ev: &mut Vec<Value>, rep: &mut Report) {
                     break;
                 }
             }
+        }
+    }
+    // ... and the answer: only the last entry map record of the last feature record names an entry that the definition
+    // reaches through the glyph map (record positions 16389 and 17999: byte positions beyond 16 bits)
+    let by_uri: HashMap<String, i64> = (0..=20_000).map(|e| (uri_string("A", e as u32), e)).collect();
+    for (n1, n2) in [(16_390usize, 0usize), (9_000, 9_000)] {
+        rep.evaluations += 1;
+        let maps = |n: usize, hit: bool| -> Vec<Value> { (0..n).map(|i| if hit && i + 1 == n { json!([1, 1]) } else { json!([2, 2]) }).collect() };
+        let mut frecs = vec![json!([0, 301, maps(n1, n2 == 0)])];
+        if n2 > 0 {
+            frecs.push(json!([1, 301 + n1, maps(n2, true)]));
+        }
+        let c = json!({"first": 0, "gmap": [0, 1, 2, 1, 2], "maxG": 2, "maxE": 20_000, "applied": [], "frecs": frecs});
+        let case = json!({"kind": "ift-f1-big-feature-map-answer", "records": [n1, n2]});
+        let font = build_font(build_format1(&c, 3, 0, true));
+        let want = vec![1i64, (301 + n1 + n2 - 1) as i64];
+        match offered(&font, &definition(&[0], &[if n2 > 0 { 1 } else { 0 }], false, false), &by_uri) {
+            Ok(o) if o == want => {}
+            Ok(o) => rep.violation(&format!("format 1 map with {n1} + {n2} entry map records: offered {:?}..., expected {want:?}", &o[..o.len().min(6)]), case),
+            Err(e) => rep.violation(&format!("format 1 map with {n1} + {n2} entry map records: {e}"), case),
         }
     }
 }
